@@ -69,7 +69,15 @@ static void spit_err(const std::string& path, const std::string& msg){ std::ofst
 // splitmix-style deterministic points inside the extents (or knot range)
 static uint64_t sm(uint64_t& s){ s+=0x9E3779B97F4A7C15ULL; uint64_t z=s; z=(z^(z>>30))*0xBF58476D1CE4E5B9ULL; z=(z^(z>>27))*0x94D049BB133111EBULL; return z^(z>>31); }
 
+static bool evaluable(const ST& t){
+  for(uint32_t d=0;d<t.ndim;d++){
+    if(t.naxes[d]<t.order[d]+1 || t.nknots[d]!=t.naxes[d]+t.order[d]+1) return false;
+    for(uint64_t k=0;k<t.nknots[d];k++){ if(!std::isfinite(t.knots[d][k])) return false; if(k && t.knots[d][k]<t.knots[d][k-1]) return false; }
+  }
+  return true;
+}
 static std::string eval_bits(const ST& t, uint64_t seed, int npts){
+  if(!evaluable(t)) return "NA";
   std::string out; uint32_t nd=t.ndim; uint64_t s=seed;
   for(int p=0;p<npts;p++){
     std::vector<double> x(nd); std::vector<int> c(nd);
@@ -98,11 +106,11 @@ static int mode_w(const char* list){
         // round trip through memory with the very buffer returned
         ST* t3=new ST(); bool okm=t3->read_fits_mem(r.first, r.second); dump_table(*t3, pre+".rtmem");
         st<<" rtmem_ret="<<okm<<" rtmem_eq="<<((*t3)==(*t))<<" rtmem_eq_rev="<<((*t)==(*t3));
-        st<<" rtmem_eval="<<(eval_bits(*t,12345,6)==eval_bits(*t3,12345,6));
+        { std::string a=eval_bits(*t,12345,6), b=eval_bits(*t3,12345,6); st<<" rtmem_eval="<<(a=="NA"&&b=="NA"?"NA":(a==b?"1":"0")); }
         delete t3; free(r.first); }
       { ST* t2=new ST(); bool okf=t2->read_fits(pre+".file.fits"); dump_table(*t2, pre+".rtfile");
         st<<" rtfile_ret="<<okf<<" rtfile_eq="<<((*t2)==(*t))<<" rtfile_ne="<<((*t2)!=(*t));
-        st<<" rtfile_eval="<<(eval_bits(*t,777,6)==eval_bits(*t2,777,6));
+        { std::string a=eval_bits(*t,777,6), b=eval_bits(*t2,777,6); st<<" rtfile_eval="<<(a=="NA"&&b=="NA"?"NA":(a==b?"1":"0")); }
         delete t2; }
       { struct splinetable cst; cst.data=t;
         int rc=writesplinefitstable((pre+".cfile.fits").c_str(), &cst); st<<" cwrite="<<rc;
